@@ -143,7 +143,9 @@ func (o OneOfSchema[KeyType]) UnserializeType(data any) (result any, err error) 
 	}
 	unserializedMap, ok := unserializedData.(map[string]any)
 	if ok {
-		unserializedMap[o.DiscriminatorFieldNameValue] = discriminator
+		if _, memberHasField := unserializedMap[o.DiscriminatorFieldNameValue]; !memberHasField {
+			unserializedMap[o.DiscriminatorFieldNameValue] = typedDiscriminator
+		}
 		return unserializedMap, nil
 	}
 	return saveConvertTo(unserializedData, o.ReflectedType())
